@@ -56,6 +56,9 @@ type World struct {
 	CheckJobs bool
 	// NoJobs makes RunJob a no-op that still takes its time slot (twin runs)
 	NoJobs bool
+	// StreamExtends lets stream sessions also extend deadlines (per ack id, in
+	// the same request as their nacks)
+	StreamExtends bool
 	// DiagPulls records, with every pull, the incomplete delivery rows of the
 	// subscription as they were before the call (diagnosis of twin differences)
 	DiagPulls bool
@@ -608,6 +611,10 @@ func propForMiss(d *Del) (string, string) {
 		return "C06", "forward-missing"
 	case d.Revived:
 		return "C13", "seek-revived-missing"
+	case d.Attempts > 0 && (d.LeaseWhy == "nack" || d.LeaseWhy == "stream-nack"):
+		// the lease was ended by a zero deadline: "immediately redeliverable" is
+		// the lease property's own promise
+		return "C04", "not-redeliverable-after-zero-deadline"
 	case d.Attempts > 0:
 		return "C01", "redelivery-missing"
 	}
